@@ -217,6 +217,17 @@ DISPOSITION = [  # (regex on "file:line func was->rep", why a surviving mutant i
     (r"scsi_command\.py:62:", "unreachable duplicate branch of init_cdb (00h-1Fh is handled first)"),
     (r"scsi_command\.py:23[2-7]:", "length fallback for dictionaries without opcode: the byte count of every mask in the library is unchanged by the mutant"),
     (r"print_data|__str__|show_data", "text output only (the properties demand printability and the T10 text, both still given)"),
+    (r"_r = bytearray\(\d+\)|_rr = bytearray\(\d+\)", "scratch buffer that is cut to the field's length (or replaced) before it is used"),
+    (r"block_descriptor = data", "assignment to a variable that is never read"),
+    (r"persistentreservein\.py:324:", "ADDITIONAL LENGTH 0 takes the general path with the same result (no descriptors)"),
+    (r"persistentreservein\.py:326:", "one more byte behind the announced length: a descriptor needs 24, the loop drops anything shorter without reporting it"),
+    (r"persistentreservein\.py:333:", "a full status descriptor without TransportID (ADDITIONAL DESCRIPTOR LENGTH 0) is not a conformant response"),
+    (r"readcd\.py:188:", "EDC/ECC without user data is not among the selection combinations the model generates"),
+    (r"readcd\.py:72:", "READ CD data-in is allocated per sector with a margin (3072 bytes); C03 demands at least the bytes the selection returns"),
+    (r"readdiscinformation\.py:107:", "assignment to a variable that is never read afterwards (OPC tables are not decoded)"),
+    (r"readdiscinformation\.py:138:", "text of the NotImplementedError for unknown data types"),
+    (r"readelementstatus\.py:164:", "slice end beyond the 36 bytes of the volume tag field that is compared"),
+    (r"report_luns\.py:90:", "only differs when one entry carries both the key `lun` and `lun<N>`, with equal values in every generated structure"),
     (r"report_priority\.py:.*marshall_datain", "REPORT PRIORITY parameter data is only decoded by the properties (C04); its builder is not in C06's list"),
 ]
 
